@@ -82,7 +82,7 @@ def canon(x):
     if isinstance(x, IPRange):
         return 'R:%d:%d:%d' % (x.version, x.first, x.last)
     if isinstance(x, IPSet):
-        return 'S:' + plist('N:%d:%d:%d' % t for t in sorted((n.version, n.value, n.prefixlen) for n in x._cidrs))
+        return 'S:' + plist('N:%d:%d:%d' % t for t in sorted((n.version, n.value, n.prefixlen) for n in x.iter_cidrs()))
     if isinstance(x, EUI):
         d = x.dialect
         idx = [i for i, n in enumerate(DIALECTS) if getattr(netaddr, n) is d]
